@@ -13,7 +13,7 @@ EXPLANATION = (
     'destination - the argument of set_local_mtime for local/pull deliveries and the @{t} hole of the remote touch for push - is the source FileMeta.mtime of the same '
     'path through a pure copy chain (no arithmetic); (R3) all three writer/reader pairs use whole epoch seconds: mtime_secs = duration_since(UNIX_EPOCH).as_secs(), '
     'set_local_mtime = UNIX_EPOCH + Duration::from_secs(secs), remote writer `touch -d @secs`, remote reader keeps the part of %T@ before the dot; (R4) a failure to '
-    'set the mtime is not silent; (R5) transfer only on needs_transfer (the C19 plan rule), and is_excluded is only ever given paths relative to the synchronised root (a listing emptied by a pattern that matches the location of the tree itself would make every file look new); (R6) every FileMeta built from a local stat takes size and mtime from one Metadata obtained by a link-following stat (the walk and the delivery follow links too). (R7) between the scan of the destination and build_plan an entry is dropped only by a predicate that answers false only where the source listing lacks the path (a source file whose destination entry is dropped would be re-sent for ever). R2: a combinator that can drop or replace the value (filter, or, zip) breaks the copy chain. Not decided: behaviour of touch/find on the remote; far-future values.')
+    'set the mtime is not silent; (R5) transfer only on needs_transfer (the C19 plan rule), and is_excluded is only ever given paths relative to the synchronised root (a listing emptied by a pattern that matches the location of the tree itself would make every file look new); (R6) every FileMeta built from a local stat takes size and mtime from one Metadata obtained by a link-following stat (the walk and the delivery follow links too). (R7) between the scan of the destination and build_plan an entry is dropped only by a predicate that answers false only where the source listing lacks the path (a source file whose destination entry is dropped would be re-sent for ever). R2: a combinator that can drop or replace the value (filter, or, zip) breaks the copy chain. Not decided: behaviour of touch/find on the remote; far-future values. (R8) every function reachable from the one-way sync entry points that renames a file onto a non-staging path hands that very path (captures resolved) to set_local_mtime, reachable from the rename: a fast path that publishes files of its own without the source mtime is re-sent for ever.')
 ASSUMPTIONS = ['touch -d @N sets the mtime to N seconds after the epoch; find -printf %T@ prints seconds[.fraction]']
 
 
